@@ -60,6 +60,13 @@ TEXT = {
         "design_ref": "DESIGN.md §5 C11", "note": RX_NOTE + " Known finding: ReplyStream lets safe code keep a borrow of the receive buffer across later receives.",
         "technique": "Lean 4 proof (counterexample by kernel evaluation; frame-already-buffered lemma) on a physical-buffer model; correspondence run holding borrowed items across later receives",
     },
+    "C12": {
+        "level": "Machine-checked theorems over every method declaration and argument list of the model: the call is `<interface>.<rename or PascalCase(name)>`, `parameters` present exactly when parameters are declared, each argument under its wire name, None omitted, more/oneway exactly as annotated; "
+                 "the chain_ and chain-extension generators produce the same frame as the plain one; reply mapping = the receive classification of C04 plus MissingParameters, so an `error` reply is never Ok(Ok(_)). "
+                 "A corpus of 60 (quick) / 600 (thorough) generated traits is compiled against the current macros on every run and every method exercised in all three forms.",
+        "design_ref": "DESIGN.md §5 C12", "note": "Trusted: Lean kernel; rustc + the proc-macro expansion (observed through the compiled corpus only); the Python corpus generator; serde derive semantics of the generated structs.",
+        "technique": "Lean 4 proof (definitional properties of three separately mirrored generators) + compile-and-run correspondence over a generated trait corpus",
+    },
     "C13": {
         "level": "PARTIAL proof + exhaustive-style correspondence. Machine-checked: parsing is total with two outcomes (the model has no panic path; the real parser is run under catch_unwind on every text); the type-name and field-name lexers accept exactly "
                  "the grammar's regular expressions with longest match (soundness and completeness). The parser model is a function-by-function port (winnow combinator semantics included) that agrees with the real parser on ~65k (quick) / ~1.5M (thorough) "
